@@ -29,6 +29,8 @@ type skeleton struct {
 	aliasPre, aliasPost string
 	// valPrefix: the SQL token carries a fixed prefix before the name (render_prop_<name>).
 	valPrefix string
+	// uses: how often the program uses the hole content (0 = once, or twice by the naming rule in c04Ref)
+	uses int
 }
 
 var c04Skeletons = []skeleton{
@@ -44,6 +46,9 @@ var c04Skeletons = []skeleton{
 	{name: "extend-implicit-call", kind: "string", pre: "T | extend strcat(a, ", post: ")", alias: true, aliasPre: "strcat(a, ", aliasPost: ")"},
 	{name: "after-escaped-literal", kind: "string", pre: "let s = 'p\\tq\\\\'; T | where a == s or b == \"u\\\"v\" or c == ", post: " | project c"},
 	{name: "join-cond", kind: "string", pre: "T | join (R) on k, $left.a == ", post: " | count"},
+	{name: "join-cond-via-let", kind: "string", pre: "let tag = ", post: "; T | join kind=leftouter (R | as H) on $left.k == $right.k, $left.side == tag | count"},
+	{name: "join-cond-via-let-reversed", kind: "string", pre: "let tag = ", post: "; let t2 = tag; T | join (R) on t2 == $right.side, k"},
+	{name: "where-via-let-chain", kind: "string", pre: "let a1 = ", post: "; let a2 = strcat(a1, 'x'); T | where s == a2 and t != a1 | extend z = a2", uses: 3},
 
 	{name: "table", kind: "ident", pre: "", post: " | where a > 1"},
 	{name: "column", kind: "ident", pre: "T | where ", post: " == 1"},
@@ -264,6 +269,9 @@ func c04Ref(sk skeleton) ([][]sqlx.Tok, error) {
 	if strings.HasPrefix(base, "as-name") || base == "let-value" || base == "project-bare" {
 		want = 2
 	}
+	if sk.uses > 0 {
+		want = sk.uses
+	}
 	if cnt != want {
 		return nil, fmt.Errorf("reference output for %s carries the hole content %d times, the program uses it %d times: %s", sk.name, cnt, want, sql)
 	}
@@ -324,6 +332,44 @@ func c04Main(r *run.Runner) {
 			})
 		})
 	}
+	// contents that mean something to the compiler itself (its aliases, generated names, placeholders, keywords)
+	magic := []string{"$left", "$right", "$left.a", "$right.k", "a $right b", "__subquery0", "__subquery1", "count()", "render_type", "render_prop_title", "NULL /* unhandled",
+		"coalesce(", "true", "false", "null", "by", "and", "in", "$1", "{p:Int32}", "HOLE", "k", "a", "T", "R", "x", "v", "tag", "lower(", "--", "/*", "*/", "\\n", "%d", "$", "$$", "${x}"}
+	r.Sweep("magic-contents", int64(len(magic)), func(w *run.Worker, item int64) {
+		doContent(w, magic[item])
+		doContent(w, " "+magic[item]+" ")
+		doContent(w, magic[item]+"'"+magic[item])
+	})
+	// differently spelled names that must stay different: a quoted part containing a dot vs a dotted path, a quoted vs a plain
+	// spelling, a string with the same text - two of them in one expression and in two operators
+	spell := []struct{ pql, sql string }{
+		{"attrs.size", `"attrs"."size"`}, {"`attrs.size`", `"attrs.size"`}, {"`attrs`.`size`", `"attrs"."size"`}, {"attrs.`size`", `"attrs"."size"`},
+		{"`a.b`.c", `"a.b"."c"`}, {"a.`b.c`", `"a"."b.c"`}, {"a.b.c", `"a"."b"."c"`}, {"`a.b.c`", `"a.b.c"`}, {"size", `"size"`}, {"`size`", `"size"`}, {"`Size`", `"Size"`},
+		{"'attrs.size'", `'attrs.size'`}, {"\"size\"", `'size'`}, {"`attrs size`", `"attrs size"`}, {"attrs", `"attrs"`},
+	}
+	r.Sweep("name-spellings", int64(len(spell)*len(spell)), func(w *run.Worker, item int64) {
+		a, b := spell[item/int64(len(spell))], spell[item%int64(len(spell))]
+		for _, form := range []string{"T | where %s > 10 and %s < 20", "T | extend z = %s | where %s > 1", "T | where f(%s) == 1 | project q = %s", "T | join (R | where %s > 1) on k | where %s > 2", "T | sort by %s | project z = %s, k"} {
+			src := fmt.Sprintf(form, a.pql, b.pql)
+			w.Begin("name-spellings", src)
+			var sql string
+			var err error
+			if !w.Try(src, func() { sql, err = pql.Compile(src) }) {
+				return
+			}
+			if err != nil {
+				continue
+			}
+			w.Nontrivial()
+			ia, ib := strings.Index(sql, a.sql), strings.LastIndex(sql, b.sql)
+			okA := ia >= 0 && (a.sql[0] != '"' || !strings.HasPrefix(sql[ia+len(a.sql):], `."`)) && (ia < 2 || sql[ia-2:ia] != `".`)
+			okB := ib >= 0 && (b.sql[0] != '"' || !strings.HasPrefix(sql[ib+len(b.sql):], `."`)) && (ib < 2 || sql[ib-2:ib] != `".`)
+			if !okA || !okB {
+				w.Fail("name-spelling-conflated", src, fmt.Sprintf("the names %s and %s must appear as %s and %s\nsql: %s", a.pql, b.pql, a.sql, b.sql, sql), map[string]any{"a": a.pql, "b": b.pql, "asql": a.sql, "bsql": b.sql, "form": form})
+				return
+			}
+		}
+	})
 	// long contents: a special character after n ordinary bytes, for every n up to 300 (buffer sizes, truncation)
 	type longCase struct {
 		pad  int
@@ -396,6 +442,16 @@ func c04Main(r *run.Runner) {
 }
 
 func c04Replay(w *run.Worker, v *run.Viol) {
+	if v.Check == "name-spellings" {
+		asql, _ := v.Extra["asql"].(string)
+		bsql, _ := v.Extra["bsql"].(string)
+		w.Begin(v.Check, v.Source)
+		sql, err := pql.Compile(v.Source)
+		if err == nil && (!strings.Contains(sql, asql) || !strings.Contains(sql, bsql)) {
+			w.Fail(v.Sig, v.Source, "sql: "+sql, nil)
+		}
+		return
+	}
 	if strings.HasPrefix(v.Check, "skeleton:") {
 		name := strings.TrimPrefix(v.Check, "skeleton:")
 		for _, sk := range c04Skeletons {
